@@ -508,12 +508,16 @@ where
             self.announcements
         {
             let other_attrs_len = self.attributes.bytes_len();
-            let limit = Self::MAX_PDU 
+            // If the other attributes leave no room at all, the limit is 0:
+            // a single announcement is tried and into_message reports
+            // PduTooLarge.
+            let limit = Self::MAX_PDU.saturating_sub(
                     // marker/len/type, wdraw len, total pa len
-                    - (16 + 2 + 1 + 2 + 2)
+                    (16 + 2 + 1 + 2 + 2)
                     // MP_REACH_NLRI flags/type/len/afi/safi/rsrved, next_hop
-                    - 8 - reach_builder.get_nexthop().compose_len()
-                    - other_attrs_len;
+                    + 8 + reach_builder.get_nexthop().compose_len()
+                    + other_attrs_len
+            );
 
                 if !reach_builder.announcements.is_empty() {
                     // Take all announcements, unless they exceed the limit.
